@@ -19,7 +19,8 @@ RULE = ('files of every length 0..N (and lengths around the 1 MiB streaming buff
         '(blanks, signs, underscores, Unicode digits, other units, extra dashes, empty) x If-Modified-Since before/equal/after the '
         'mtime in the three HTTP date formats, garbage and "; length=" suffixes x GET and HEAD, served through Ombott.__call__. '
         'Non-trivial = a Range or If-Modified-Since header is present; distinct = distinct (length, method, Range, IMS class).')
-REQUIRED = ['server_zone_not_utc', 'big_file_with_server_file_wrapper', 'mtime_with_subsecond_part', 'ranges_crossing_a_buffer_boundary_before_eof', 'status_206', 'status_416', 'status_200', 'status_304', 'head_compared', 'slice_compared', 'grammar_satisfiable',
+PYOPT = {'quick': 1, 'thorough': 1}     # one unit of every kind is also served by an interpreter started with -O (assert statements compiled out)
+REQUIRED = ['units_run_under_python_-O', 'server_zone_not_utc', 'big_file_with_server_file_wrapper', 'mtime_with_subsecond_part', 'ranges_crossing_a_buffer_boundary_before_eof', 'status_206', 'status_416', 'status_200', 'status_304', 'head_compared', 'slice_compared', 'grammar_satisfiable',
             'grammar_unsatisfiable', 'near_miss', 'multi_range', 'suffix_range', 'open_range', 'clipped_end', 'ims_equal', 'ims_before', 'ims_after']
 EXHAUSTIVE = {'quick': False, 'thorough': False,
               'quick_note': 'complete for lengths 0..12 x all single ranges with bounds in -1..len+2',
